@@ -6,7 +6,8 @@ use crate::entropy;
 use crate::framework::{CaseCx, CaseOut, Check, Tier, Violation};
 use crate::mpcrun::{self, MpcSpec};
 use crate::schema::{self, V};
-use crate::sim::{self, End, RunCfg, SchedSpec, SimChannel, Strategy, Task, TaskOut};
+use crate::mutate::MutSpec;
+use crate::sim::{self, End, Fault, FaultKind, RunCfg, SchedSpec, Sel, SimChannel, Strategy, Task, TaskOut};
 use polytune::bench_reexports::{Block, kos_ot_receiver, kos_ot_sender};
 use polytune::verif::{self as pv, PlainShare};
 use rand::{Rng, RngCore, SeedableRng};
@@ -286,6 +287,24 @@ pub struct PreSpec {
     pub cap: usize,
     pub seed: u64,
     pub sched: SchedSpec,
+    /// coin tossing only (pairwise toss, then two multi-party tosses), with one party that
+    /// equivocates: towards `victim` it commits to and opens another contribution than towards
+    /// the others, consistently (commitment recomputed), in multi-party toss number `round`
+    #[serde(default, skip_serializing_if = "Option::is_none")]
+    pub equivocate: Option<Equiv>,
+}
+
+#[derive(Clone, Debug, Serialize, Deserialize)]
+pub struct Equiv {
+    pub cheater: usize,
+    pub victim: usize,
+    pub round: usize,
+    pub byte: usize,
+    pub mask: u8,
+    /// true: the cheater is a positional replay of the honest run and never stops; false: it runs
+    /// the real code (and normally aborts itself when its own echo comparison fails)
+    #[serde(default)]
+    pub scripted: bool,
 }
 
 struct PreTask {
@@ -335,6 +354,16 @@ impl Task for PreTask {
             let delta: u128 = rand::random();
             let mut pairwise = pv::shared_rng_pairwise(ch, p, n).await?;
             let mut multi = pv::shared_rng(ch, p, n).await?;
+            if s.equivocate.is_some() {
+                let mut multi2 = pv::shared_rng(ch, p, n).await?;
+                return Ok(Box::new(PreOut {
+                    delta,
+                    shares: vec![],
+                    alpha_beta: vec![],
+                    ands: vec![],
+                    coins: vec![multi.next_u64(), multi2.next_u64()],
+                }));
+            }
             let shares = pv::fashare(ch, delta, p, n, s.l, &mut pairwise, &mut multi).await?;
             let (mut alpha_beta, mut ands) = (vec![], vec![]);
             if s.ands > 0 {
@@ -401,7 +430,92 @@ fn check_macs(kind: &str, outs: &[&PreOut], get: &dyn Fn(&PreOut) -> &Vec<PlainS
     checked
 }
 
+/// Coin tossing against a party that equivocates consistently (see `Equiv`): every honest party
+/// that finishes holds the same multi-party coins as every other honest party that finishes.
+fn c10_equivocation_run(spec: &PreSpec, eq: &Equiv) -> (Vec<Violation>, u64, u64) {
+    let sv = serde_json::to_value(spec).unwrap();
+    let mut v = vec![];
+    let mut cfg = RunCfg::honest(spec.n, spec.cap, spec.seed, spec.sched.clone());
+    cfg.max_steps = 2_000_000;
+    cfg.record_events = true;
+    let reference = sim::run(&cfg, Arc::new(PreTask { spec: spec.clone() }));
+    cfg.record_events = false;
+    let mut steps = reference.steps;
+    if !reference.ends.iter().all(|e| matches!(e, End::Ok(_))) {
+        v.push(viol("preprocessing-failed", "preprocessing-failed:coin-toss-reference", format!("honest coin tossing failed: {:?}", reference.ends.iter().map(|e| e.summary()).collect::<Vec<_>>()), &sv));
+        return (v, steps, 0);
+    }
+    // occurrence 0 of the phase labels is the pairwise toss
+    let occ = eq.round + 1;
+    let kth = |phase: &str| reference.transcript.iter().filter(|m| m.from == eq.cheater && m.to == eq.victim && m.phase == phase).nth(occ);
+    let (Some(_comm), Some(ver)) = (kth("RNG comm"), kth("RNG ver")) else {
+        v.push(viol("harness-error", "c10-equiv-sites", "coin-toss messages not found in the reference run".into(), &sv));
+        return (v, steps, 0);
+    };
+    let Ok(V::Vec(bytes, _)) = schema::decode_msg("RNG ver", &ver.data) else {
+        v.push(viol("harness-error", "c10-equiv-decode", "RNG ver does not decode".into(), &sv));
+        return (v, steps, 0);
+    };
+    let mut buf: Vec<u8> = bytes.iter().map(|b| if let V::U8(x) = b { *x } else { 0 }).collect();
+    let k = eq.byte % buf.len().max(1);
+    buf[k] ^= if eq.mask == 0 { 1 } else { eq.mask };
+    let mut buf_id = buf.clone();
+    buf_id.extend_from_slice(&(eq.cheater as u16).to_be_bytes());
+    let comm2 = blake3::hash(&buf_id);
+    let ver_bytes = schema::encode_msg(&V::Vec(buf.iter().map(|b| V::U8(*b)).collect(), buf.len() as u64));
+    let comm_bytes = schema::encode_msg(&V::Vec(vec![V::Arr(comm2.as_bytes().iter().map(|b| V::U8(*b)).collect())], 1));
+    let sel = |phase: &str| Sel { from: eq.cheater, to: eq.victim, idx: None, phase: Some(phase.into()), occ: Some(occ) };
+    cfg.faults = vec![
+        Fault { sel: sel("RNG comm"), kind: FaultKind::Mutate(MutSpec::Bytes(comm_bytes)) },
+        Fault { sel: sel("RNG ver"), kind: FaultKind::Mutate(MutSpec::Bytes(ver_bytes)) },
+    ];
+    if eq.scripted {
+        cfg.scripted = Some((eq.cheater, reference.reference()));
+    }
+    let res = sim::run(&cfg, Arc::new(PreTask { spec: spec.clone() }));
+    steps += res.steps;
+    let fired: u64 = res.fired.values().sum();
+    // (the opening is only sent when the cheater's own echo comparison passed, i.e. normally not)
+    if fired == 0 {
+        v.push(viol("harness-error", "c10-equiv-not-fired", "the substituted commitment was never sent".into(), &sv));
+        return (v, steps, 0);
+    }
+    let mut ok: Vec<(usize, Vec<u64>)> = vec![];
+    for (p, e) in res.ends.iter().enumerate() {
+        if p == eq.cheater {
+            continue;
+        }
+        match e {
+            End::Ok(b) => {
+                if let Some(x) = b.downcast_ref::<PreOut>() {
+                    ok.push((p, x.coins.clone()));
+                }
+            }
+            End::Panic(m) => v.push(viol("panic", "panic:coin-toss", format!("party {p} panicked: {m}"), &sv)),
+            _ => {}
+        }
+    }
+    for w in ok.windows(2) {
+        if w[0].1 != w[1].1 {
+            v.push(viol(
+                "shared-coins-differ",
+                "shared-coins-differ:equivocation",
+                format!(
+                    "party {} committed to and opened one contribution towards party {} and another towards the rest in multi-party toss #{}: honest parties {} and {} both finished the coin tossing, with different shared coins (n={})",
+                    eq.cheater, eq.victim, eq.round, w[0].0, w[1].0, spec.n
+                ),
+                &sv,
+            ));
+            break;
+        }
+    }
+    (v, steps, ok.len() as u64)
+}
+
 fn c10_run(spec: &PreSpec) -> (Vec<Violation>, u64, u64) {
+    if let Some(eq) = &spec.equivocate {
+        return c10_equivocation_run(spec, eq);
+    }
     let sv = serde_json::to_value(spec).unwrap();
     let nodes = if spec.dealer { spec.n + 1 } else { spec.n };
     let mut cfg = RunCfg::honest(nodes, spec.cap, spec.seed, spec.sched.clone());
@@ -514,6 +628,12 @@ impl Check for C10 {
         }
         if tier == Tier::Thorough {
             v.push(json!({"seed": seed, "k": k, "n": 2, "l": 8, "ands": 280000, "dealer": false}));
+            k += 1;
+        }
+        // coin tossing against an equivocating party
+        for e in 0..(if tier == Tier::Quick { 24 } else { 400 }) {
+            v.push(json!({"seed": seed, "k": k, "n": 3 + e % 3, "l": 1, "ands": 0, "dealer": false, "equiv": e}));
+            k += 1;
         }
         v
     }
@@ -531,11 +651,26 @@ impl Check for C10 {
             cap: [0, 1, 2][rng.random_range(0..3)],
             seed: rng.random(),
             sched: sched(&mut rng, n),
+            equivocate: None,
         };
+        let mut spec = spec;
+        if case.get("equiv").is_some() {
+            let cheater = rng.random_range(0..n);
+            let victim = (cheater + 1 + rng.random_range(0..n - 1)) % n;
+            spec.equivocate = Some(Equiv { cheater, victim, round: rng.random_range(0..2), byte: rng.random_range(0..32), mask: 1 << rng.random_range(0..8), scripted: case["equiv"].as_u64().unwrap() % 2 == 0 });
+        }
         cx.begin(&serde_json::to_value(&spec).unwrap());
         let (v, steps, checked) = c10_run(&spec);
         out.evals += 1;
         out.sim_steps += steps;
+        if spec.equivocate.is_some() {
+            out.count(if spec.equivocate.as_ref().unwrap().scripted { "equivocating_coin_toss_runs(scripted cheater)" } else { "equivocating_coin_toss_runs(live cheater)" }, 1);
+            out.count("equivocating_coin_toss:honest_parties_that_finished", checked);
+            out.count("fired:mutate:bytes", 2);
+            out.distinct.push(entropy::mix(n as u64, 0xe9, spec.seed));
+            out.violations.extend(v);
+            return out;
+        }
         out.count("mac_relations_checked", checked);
         out.count(if spec.dealer { "provider=dealer" } else { "provider=distributed" }, 1);
         out.count(&format!("n={n}"), 1);
